@@ -294,6 +294,21 @@ func loadDebFileDump(data []byte) string {
 	return "ok " + dumpLoadedDeb(d)
 }
 
+// fdsOpenOn counts the descriptors of this process that refer to path
+func fdsOpenOn(path string) int {
+	ents, err := os.ReadDir("/proc/self/fd")
+	if err != nil {
+		return 0
+	}
+	n := 0
+	for _, e := range ents {
+		if l, err := os.Readlink("/proc/self/fd/" + e.Name()); err == nil && l == path {
+			n++
+		}
+	}
+	return n
+}
+
 // dataOnlyDigest loads a file, keeps only Deb.Data and the close function, lets the garbage
 // collector run, and then reads the payload
 func dataOnlyDigest(path string) string {
@@ -1130,6 +1145,39 @@ func init() {
 			debDataDigest(d)
 			closer()
 			d.Close()
+		}
+		// either route alone releases the file: no descriptor of this process refers to it afterwards
+		for route := 0; route < 2; route++ {
+			d, closer, err := deb.LoadFile(f.Name())
+			if err != nil {
+				break
+			}
+			var cerr error
+			if route == 0 {
+				cerr = closer()
+			} else {
+				cerr = d.Close()
+			}
+			if cerr != nil {
+				return fmt.Sprintf("FAIL closing a package that loaded fine reports %v", cerr)
+			}
+			if n := fdsOpenOn(f.Name()); n != 0 {
+				return fmt.Sprintf("FAIL after %s the process still holds %d descriptor(s) on the package file", []string{"the close function", "Deb.Close"}[route], n)
+			}
+		}
+		// a file that is not a package: an error, and nothing left open
+		if g, err := os.CreateTemp("", "verif-notdeb-"); err == nil {
+			g.WriteString("this is not an ar archive\n")
+			g.Close()
+			if d, _, err := deb.LoadFile(g.Name()); err == nil || d != nil {
+				os.Remove(g.Name())
+				return "FAIL a text file loads as a package"
+			}
+			n := fdsOpenOn(g.Name())
+			os.Remove(g.Name())
+			if n != 0 {
+				return fmt.Sprintf("FAIL after a failed LoadFile the process still holds %d descriptor(s) on the file", n)
+			}
 		}
 		bB, bC := []byte(core.MustUnHex(a[1])), []byte(core.MustUnHex(a[2]))
 		wantB, dB := loadDebDump(bB)
